@@ -388,6 +388,11 @@ def oracle_C04(result):
                     if is_gen(v) and v[1] != j:
                         bad.append(("C04:leak", f"step {i}: object generated for context {v[1]} is visible in "
                                     f"context {j} under ({t},{n!r})", i))
+        if op["op"] == "GetNowait" and out["k"] == "Err" and out["e"] == "AsyncErr" and i and \
+                maps_of(steps[i - 1]["probe"][op["c"]]).get(op["t"], {}).get(op["name"]) is not None:
+            bad.append(("C04:sync-async-disagree", f"step {i}: get_resource_nowait raised AsyncResourceError for "
+                        f"({op['t']},{op['name']!r}) in context {op['c']} although the pair already resolves to "
+                        f"{maps_of(steps[i - 1]['probe'][op['c']])[op['t']][op['name']]} there", i))
         if op["op"] == "GetNowait" and out["k"] == "Err" and out["e"] == "AsyncErr":
             if canon_probe(prev[op["c"]]) != canon_probe(probe[op["c"]]):
                 bad.append(("C04:asyncerr-changed-state", f"step {i}: AsyncResourceError but the context changed", i))
